@@ -277,6 +277,20 @@ pub fn validator_checks(dir: &std::path::Path) -> Vec<String> {
     if tc == tb {
         checks.push("C18:etag-unchanged-after-one-second-mtime-change".into());
     }
+    // mirror images around the epoch, less than a second from it: the side of the epoch must show in the tag
+    {
+        let f = std::fs::OpenOptions::new().write(true).open(&p).unwrap();
+        f.set_modified(std::time::SystemTime::UNIX_EPOCH - std::time::Duration::new(0, 250_000_000)).unwrap();
+        drop(f);
+        let before = tag(&p);
+        let f = std::fs::OpenOptions::new().write(true).open(&p).unwrap();
+        f.set_modified(std::time::SystemTime::UNIX_EPOCH + std::time::Duration::new(0, 250_000_000)).unwrap();
+        drop(f);
+        let after = tag(&p);
+        if before == after {
+            checks.push("C18:etag-unchanged-between-mirror-times-around-the-epoch".into());
+        }
+    }
     set(123_456_789, 1_600_000_000);
     // replace: same length and mtime, different inode
     let q = dir.join("v2");
@@ -287,6 +301,64 @@ pub fn validator_checks(dir: &std::path::Path) -> Vec<String> {
     let t5 = tag(&q);
     if t5 == t4 {
         checks.push("C18:etag-unchanged-after-replacement".into());
+    }
+    checks
+}
+
+/// One entity used for several reads while the file changes in between (the type is documented as reusable
+/// for many requests): every read must see the file as it is then -- rewritten bytes, or a failure once it
+/// has been truncated below the range.
+pub fn reuse_checks(rt: &tokio::runtime::Runtime, dir: &std::path::Path) -> Vec<String> {
+    let mut checks = vec![];
+    for size in [10u64, 5000, 70_000] {
+        let p = dir.join("r");
+        write_file(&p, size);
+        let crf = std::sync::Arc::new(Crf::new(std::fs::File::open(&p).unwrap(), http::HeaderMap::new()).unwrap());
+        let read = |crf: std::sync::Arc<Crf>, a: u64, e: u64| -> Result<Vec<u8>, ()> {
+            rt.block_on(async move {
+                tokio::spawn(async move {
+                    let mut st: Pin<Box<dyn Stream<Item = Result<Bytes, BoxError>> + Send + Sync>> = crf.get_range(a..e);
+                    let mut out = vec![];
+                    for _ in 0..64 {
+                        match std::future::poll_fn(|cx| st.as_mut().poll_next(cx)).await {
+                            None => return Ok(out),
+                            Some(Ok(d)) => out.extend_from_slice(&d),
+                            Some(Err(_)) => return Err(()),
+                        }
+                    }
+                    Err(())
+                })
+                .await
+                .unwrap()
+            })
+        };
+        let want: Vec<u8> = (0..size).map(content).collect();
+        if read(crf.clone(), 0, size) != Ok(want) {
+            checks.push(format!("C18:first-read-of-a-reused-entity(size={})", size));
+        }
+        // rewritten in place, same length
+        {
+            use std::io::{Seek, Write as _};
+            let mut f = std::fs::OpenOptions::new().write(true).open(&p).unwrap();
+            f.seek(std::io::SeekFrom::Start(0)).unwrap();
+            let nb: Vec<u8> = (0..size).map(|i| content(i) ^ 0x5a).collect();
+            f.write_all(&nb).unwrap();
+        }
+        let want2: Vec<u8> = (0..size).map(|i| content(i) ^ 0x5a).collect();
+        if read(crf.clone(), 0, size) != Ok(want2.clone()) {
+            checks.push(format!("C18:reused-entity-yields-stale-bytes-after-the-file-was-rewritten(size={})", size));
+        }
+        if size > 4 && read(crf.clone(), 1, 4) != Ok(want2[1..4].to_vec()) {
+            checks.push(format!("C18:reused-entity-yields-stale-bytes-for-a-sub-range(size={})", size));
+        }
+        // truncated below the range end
+        {
+            let f = std::fs::OpenOptions::new().write(true).open(&p).unwrap();
+            f.set_len(size / 2).unwrap();
+        }
+        if read(crf.clone(), 0, size).is_ok() {
+            checks.push(format!("C18:reused-entity-does-not-fail-after-truncation(size={})", size));
+        }
     }
     checks
 }
